@@ -11,6 +11,7 @@ import sys
 import json
 import time
 import importlib
+import signal
 import traceback
 
 import numpy as np
@@ -43,7 +44,11 @@ class Runner:
         """Returns normally if the case passed / was excluded / hit a known finding."""
         rec = self.rec
         try:
-            nt = self.clause.oracle(case, rec)
+            signal.setitimer(signal.ITIMER_REAL, CASE_TIMEOUT)
+            try:
+                nt = self.clause.oracle(case, rec)
+            finally:
+                signal.setitimer(signal.ITIMER_REAL, 0)
         except Discard as d:
             rec.evaluations += 1
             rec.excluded[str(d)] += 1
@@ -121,6 +126,18 @@ class Runner:
                 done += self.rec.evaluations - start
 
 
+class CaseTimeout(BaseException):
+    """One case ran longer than CASE_TIMEOUT seconds: inconclusive (harness error), never a violation -
+    unless a clause catches it itself because termination is what its property is about (C04)."""
+
+
+CASE_TIMEOUT = float(os.environ.get('VERIF_CASE_TIMEOUT', '240'))
+
+
+def _alarm(signum, frame):
+    raise CaseTimeout('a single case exceeded %.0f s' % CASE_TIMEOUT)
+
+
 def _stable(s):
     import hashlib
     return int.from_bytes(hashlib.sha1(s.encode()).digest()[:4], 'big')
@@ -130,6 +147,7 @@ def main(argv):
     mode = argv[0]
     t0 = time.time()
     out = {'error': None}
+    signal.signal(signal.SIGALRM, _alarm)
     try:
         core.import_emd()
         known = core.load_known()
